@@ -7,6 +7,20 @@ import numpy as np
 _state = threading.local()
 _rec_lock = threading.Lock()
 RECORDER = None          # set by the harness: a Recorder instance, or None (hooks then cost one attribute test)
+WIDEN = 0.0              # failing-input search only: seconds to pause between the read half and the write half of an
+                         # UNLOCKED read-modify-write of a mask row (the row is read into a private copy, as the element loop of
+                         # `|=` does element by element); every lost update seen this way is an interleaving the real code admits
+
+
+class NullRecorder:
+    """keeps the hooks active (traced arrays, WIDEN) without storing events"""
+    layer = -1
+
+    def __init__(self):
+        self.layers = []
+
+    def add(self, **kw):
+        pass
 
 
 class Recorder:
@@ -87,6 +101,10 @@ class Traced(np.ndarray):
                   thread=threading.get_ident(), locked=bool(getattr(_state, 'locked', 0)), **_footprint(name, key, self))
         if isinstance(out, np.ndarray):
             out = out.view(np.ndarray)
+            if WIDEN and name == 'masks' and r is not None and not getattr(_state, 'locked', 0) and getattr(_state, 'task', None) is not None:
+                out = out.copy()
+                import time
+                time.sleep(WIDEN)
         return out
 
     def __setitem__(self, key, value):
